@@ -10,6 +10,7 @@ import (
 func init() {
 	vRegister("VerifC02ParseBytes", VerifC02ParseBytes)
 	vRegister("VerifC02ParseStructured", VerifC02ParseStructured)
+	vRegister("VerifC02HugeLength", VerifC02HugeLength)
 }
 
 // vC02Downstream exercises what the statement promises for every accepted profile.
@@ -94,5 +95,34 @@ func VerifC02ParseStructured() {
 	}
 	vObserve(true, len(p.Sample), len(p.Location), len(p.Function), len(p.Mapping))
 	vReach("C02.struct:accepted")
+	vC02Downstream(p)
+}
+
+// VerifC02HugeLength: a length-delimited field whose length prefix is any
+// varint of up to ten bytes (including values beyond the int range).
+func VerifC02HugeLength() {
+	fields := []byte{0x0a, 0x12, 0x32, 0x7a, 0x3a} // fields 1, 2, 6, 15 and an unknown one, wire type 2
+	data := []byte{fields[vChoice("field", len(fields))]}
+	for i := 0; i < 10; i++ {
+		b := vByte("len" + strconv.Itoa(i))
+		if i < 9 {
+			vAssume(b&0x80 != 0) // a ten-byte varint: every 64-bit length whose encoding uses all ten bytes
+		}
+		data = append(data, b)
+	}
+	for i := 0; i < vBound("c02.tail", 2); i++ {
+		data = append(data, vByte("tail"+strconv.Itoa(i)))
+	}
+	p, err := ParseUncompressed(data)
+	vReach("C02.hugelen:parsed")
+	if err != nil {
+		vObserve(false)
+		return
+	}
+	if p.CheckValid() != nil {
+		vObserve(false)
+		return
+	}
+	vObserve(true)
 	vC02Downstream(p)
 }
